@@ -76,6 +76,9 @@ func tIdx(n string) int {
 //	                                   get(m) / cget(m) returned (no env call, result "nomod", when it returned none)
 //	mset maddr mdelnear              — Set / Addr / DeleteGlobal of a pool name THROUGH the module held (as mget): operations that
 //	                                   start in the module (a scope BELOW the shared one) and walk up the chain
+//	mcget mctype mcset mcaddr        — the same five operations through a fresh, empty child (NewEnv) of the module held: a
+//	mcdelnear                          descendant of the module, one scope further down the chain (lock-order sub-check only)
+//	pstring                          — String of the PARENT (which may bind the shared scope as the module "sm"; lock-order sub-check only)
 //	path cpath                       — GetEnvFromPath on the shared scope / on its empty child; N = segments joined by "/"
 //	gdefine gdefinev                 — DefineGlobal / DefineGlobalValue called on the shared scope (c…: on its child):
 //	cgdefine cgdefinev                 they write the root of the chain, which is the parent
@@ -88,9 +91,9 @@ type Op struct {
 
 func (o Op) String() string {
 	switch o.K {
-	case "define", "set", "deftype", "cset", "mset", "newmod", "gdefine", "gdefinev", "cgdefine", "cgdefinev", "gdeftype", "gdeftypei", "cgdeftype":
+	case "define", "set", "deftype", "cset", "mset", "mcset", "newmod", "gdefine", "gdefinev", "cgdefine", "cgdefinev", "gdeftype", "gdeftypei", "cgdeftype":
 		return fmt.Sprintf("%s(%s,%d)", o.K, o.N, o.V)
-	case "get", "delete", "delnear", "type", "cget", "caddr", "ctype", "mget", "mtype", "maddr", "mdelnear", "path", "cpath":
+	case "get", "delete", "delnear", "type", "cget", "caddr", "ctype", "mget", "mtype", "maddr", "mdelnear", "mcget", "mctype", "mcaddr", "mcdelnear", "path", "cpath":
 		return fmt.Sprintf("%s(%s)", o.K, o.N)
 	}
 	return o.K + "()"
@@ -126,6 +129,9 @@ type Prog struct {
 	// EmptyTab: when the shared scope starts with no value bound, its value table has been created and
 	// emptied again (a define and a delete of another name before the threads start) instead of never created
 	EmptyTab bool `json:"empty_tab,omitempty"`
+	// LockOrder: a program of the sub-check "lockorder" (lockorder_test.go): String is kept although the scope binds a
+	// module, and its text is read leniently (the module's line is only recognised, not compared)
+	LockOrder bool `json:"lock_order,omitempty"`
 	// StringReplaced counts the String operations the generator replaced (excludeStringWithModule)
 	StringReplaced int `json:"string_replaced,omitempty"`
 	// GdefMoved / PresenceDemoted count the repairs of keepParentQuiet
@@ -426,7 +432,7 @@ func parentWriteConflicts(p Prog) []string {
 				gdef["v:"+op.N] = true
 			case "gdeftype", "gdeftypei", "cgdeftype":
 				gdef["t:"+op.N] = true
-			case "define", "delete", "delnear", "mdelnear":
+			case "define", "delete", "delnear", "mdelnear", "mcdelnear":
 				pres["v:"+op.N] = true
 			case "deftype":
 				pres["t:"+op.N] = true
@@ -484,6 +490,9 @@ func keepParentQuiet(t *rapid.T, p *Prog) {
 						p.PresenceDemoted++
 					case "mdelnear":
 						th[i] = Op{K: "mget", N: op.N}
+						p.PresenceDemoted++
+					case "mcdelnear":
+						th[i] = Op{K: "mcget", N: op.N}
 						p.PresenceDemoted++
 					}
 				}
@@ -572,7 +581,7 @@ func validProg(p Prog) error {
 		}
 		for _, op := range th {
 			switch op.K {
-			case "define", "set", "cset", "mset", "gdefine", "gdefinev", "cgdefine", "cgdefinev":
+			case "define", "set", "cset", "mset", "mcset", "gdefine", "gdefinev", "cgdefine", "cgdefinev":
 				if nameIdx(op.N) < 0 || op.V < 10 || op.V >= len(typeTab) {
 					return fmt.Errorf("bad op %v", op)
 				}
@@ -588,11 +597,11 @@ func validProg(p Prog) error {
 				if vIdx(op.N) < 0 {
 					return fmt.Errorf("bad op %v", op)
 				}
-			case "caddr", "mget", "maddr", "mdelnear":
+			case "caddr", "mget", "maddr", "mdelnear", "mcget", "mcaddr", "mcdelnear":
 				if nameIdx(op.N) < 0 {
 					return fmt.Errorf("bad op %v", op)
 				}
-			case "type", "ctype", "mtype":
+			case "type", "ctype", "mtype", "mctype":
 				if tIdx(op.N) < 0 {
 					return fmt.Errorf("bad op %v", op)
 				}
@@ -607,8 +616,12 @@ func validProg(p Prog) error {
 					}
 				}
 			case "string":
-				if canBindModule(p) {
+				if canBindModule(p) && !p.LockOrder {
 					return fmt.Errorf("String with a module in the scope is not generated")
+				}
+			case "pstring":
+				if !p.LockOrder {
+					return fmt.Errorf("String of the parent is only generated by the lock-order sub-check")
 				}
 			case "copy", "deepcopy", "syms", "tsyms", "eget", "ceget", "setext":
 			default:
@@ -695,6 +708,25 @@ func renderTab(names []string, t [4]int) string {
 	return strings.Join(parts, ",")
 }
 
+// renderStrTab: a value table as String shows it: a bound module is shown as "<name>=mod" (the text String prints for
+// a module does not tell which module it is); sm: the table also binds "sm" to the shared scope (the parent's).
+func renderStrTab(t [4]int, sm bool) string {
+	var parts []string
+	for i, v := range t {
+		switch {
+		case v == 0:
+		case vpool[i] == modName:
+			parts = append(parts, modName+"=mod")
+		default:
+			parts = append(parts, vpool[i]+"="+strconv.Itoa(v))
+		}
+	}
+	if sm {
+		parts = append(parts, selfName+"=mod")
+	}
+	return strings.Join(parts, ",")
+}
+
 func renderSyms(names []string, t [4]int) string {
 	var parts []string
 	for i, v := range t {
@@ -724,7 +756,7 @@ func (s state) String() string {
 func apply(s state, op Op, held bool) (state, string) {
 	i := vIdx(op.N)
 	switch op.K {
-	case "deftype", "type", "ctype", "mtype", "gdeftype", "gdeftypei", "cgdeftype":
+	case "deftype", "type", "ctype", "mtype", "mctype", "gdeftype", "gdeftypei", "cgdeftype":
 		i = tIdx(op.N)
 	}
 	switch op.K {
@@ -751,6 +783,9 @@ func apply(s state, op Op, held bool) (state, string) {
 			return s, "nomod"
 		}
 		return apply(s, Op{K: "type", N: op.N}, false)
+	case "mcget", "mctype", "mcset", "mcaddr", "mcdelnear":
+		// through a fresh empty child of the module held: one more empty table on the way up
+		return apply(s, Op{K: "m" + op.K[2:], N: op.N, V: op.V}, held)
 	case "mset", "maddr", "mdelnear":
 		// Set / Addr / DeleteGlobal through the module: its own table is empty, so the nearest binding is the
 		// one that the same operation on the shared scope finds (as for cset / caddr through the empty child)
@@ -860,7 +895,9 @@ func apply(s state, op Op, held bool) (state, string) {
 	case "tsyms":
 		return s, "tsyms{" + renderSyms(tpool, s.ct) + "}"
 	case "string":
-		return s, "str{" + renderTab(vpool, s.cv) + "|" + renderTab(tpool, s.ct) + "}"
+		return s, "str{" + renderStrTab(s.cv, false) + "|" + renderTab(tpool, s.ct) + "}"
+	case "pstring":
+		return s, "str{" + renderStrTab(s.pv, s.sm) + "|" + renderTab(tpool, s.pt) + "}"
 	}
 	panic("unknown op " + op.K)
 }
@@ -875,6 +912,8 @@ type world struct {
 	// between the threads): the module the thread holds, and the modules it made with their ids
 	regs []*env.Env
 	made [][]modRec
+	// lenient: program of the lock-order sub-check (Prog.LockOrder): String texts are read with parseStringLenient
+	lenient bool
 }
 
 type modRec struct {
@@ -918,7 +957,7 @@ func (w world) resolveAll(results [][]string) [][]string {
 
 // build creates the parent and the shared scope (sequentially; no hook installed).
 func build(p Prog) world {
-	w := world{parent: env.NewEnv()}
+	w := world{parent: env.NewEnv(), lenient: p.LockOrder}
 	for _, n := range p.ParentVals {
 		w.parent.Define(n, 4+nameIdx(n))
 	}
@@ -1024,6 +1063,41 @@ func parseString(s string) (string, bool) {
 	return strings.Join(vp, ",") + "|" + strings.Join(tp, ","), true
 }
 
+// strWildcard is the recorded result of a String whose text (of a scope that binds a module) was not recognised:
+// explain accepts it for whatever the model says.
+const strWildcard = "str(text with a module not recognised: not compared)"
+
+var reModuleLine = regexp.MustCompile(`^&(\w+\.)?Env\{.*\}$`)
+
+// parseStringLenient is parseString for a scope that may bind modules: a line "<name> = &env.Env{...}" (the %#v
+// text of a module: one line of struct fields) is recorded as "<name>=mod".
+func parseStringLenient(s string) (string, bool) {
+	lines := strings.Split(strings.TrimRight(s, "\n"), "\n")
+	if len(lines) == 0 || (lines[0] != "Has parent" && lines[0] != "No parent") {
+		return "", false
+	}
+	var vp, tp []string
+	for _, l := range lines[1:] {
+		k := strings.Index(l, " = ")
+		if k < 0 {
+			return "", false
+		}
+		name, rhs := l[:k], l[k+3:]
+		if strings.HasPrefix(rhs, "[") && strings.HasSuffix(rhs, "]uint8") {
+			tp = append(tp, name+"="+rhs[1:len(rhs)-len("]uint8")])
+		} else if _, err := strconv.Atoi(rhs); err == nil {
+			vp = append(vp, name+"="+rhs)
+		} else if (name == modName || name == selfName) && reModuleLine.MatchString(rhs) {
+			vp = append(vp, name+"=mod")
+		} else {
+			return "", false
+		}
+	}
+	sort.Strings(vp)
+	sort.Strings(tp)
+	return strings.Join(vp, ",") + "|" + strings.Join(tp, ","), true
+}
+
 // stringUsable: the String operation is generated only if the format of
 // (*Env).String can be read back on a sequentially built scope.
 func stringUsable() bool {
@@ -1073,6 +1147,31 @@ func execOp(w world, ti int, op Op) string {
 			return "err"
 		}
 		return "t" + typeID(t)
+	case "mcget", "mctype", "mcset", "mcaddr", "mcdelnear":
+		if w.regs[ti] == nil {
+			return "nomod"
+		}
+		below := w.regs[ti].NewEnv()
+		switch op.K {
+		case "mcget":
+			v, err := below.Get(op.N)
+			if err != nil {
+				return "err"
+			}
+			return "v" + valID(v)
+		case "mctype":
+			t, err := below.Type(op.N)
+			if err != nil {
+				return "err"
+			}
+			return "t" + typeID(t)
+		case "mcset":
+			return errText(below.Set(op.N, op.V))
+		case "mcaddr":
+			return addrText(below.Addr(op.N))
+		}
+		below.DeleteGlobal(op.N)
+		return "-"
 	case "mset":
 		if w.regs[ti] == nil {
 			return "nomod"
@@ -1188,8 +1287,19 @@ func execOp(w world, ti int, op Op) string {
 		s := e.GetTypeSymbols()
 		sort.Strings(s)
 		return "tsyms{" + strings.Join(s, ",") + "}"
-	case "string":
+	case "string", "pstring":
+		if op.K == "pstring" {
+			e = w.parent
+		}
 		txt := e.String()
+		if w.lenient {
+			got, ok := parseStringLenient(txt)
+			if !ok {
+				// how String prints a scope that binds a module is not part of the statement: not compared
+				return strWildcard
+			}
+			return "str{" + got + "}"
+		}
 		got, ok := parseString(txt)
 		if !ok {
 			return fmt.Sprintf("str?%q", txt)
@@ -1243,7 +1353,7 @@ func explain(p Prog, results [][]string, final string) ([]int, bool) {
 			}
 			done = false
 			ns, r := apply(s, th[pos[ti]], held[ti][pos[ti]])
-			if r != results[ti][pos[ti]] {
+			if r != results[ti][pos[ti]] && !(results[ti][pos[ti]] == strWildcard && strings.HasPrefix(r, "str{")) {
 				continue
 			}
 			np := pos
@@ -1320,15 +1430,15 @@ func touches(op Op) (reads, writes []string) {
 		return o
 	}
 	switch op.K {
-	case "define", "set", "delete", "delnear", "cset", "mset", "mdelnear", "newmod", "gdefine", "gdefinev", "cgdefine", "cgdefinev":
+	case "define", "set", "delete", "delnear", "cset", "mset", "mdelnear", "mcset", "mcdelnear", "newmod", "gdefine", "gdefinev", "cgdefine", "cgdefinev":
 		return nil, []string{"v:" + op.N}
-	case "get", "cget", "caddr", "mget", "maddr":
+	case "get", "cget", "caddr", "mget", "maddr", "mcget", "mcaddr":
 		return []string{"v:" + op.N}, nil
 	case "path", "cpath":
 		return []string{"v:" + modName}, nil
 	case "gdeftype", "gdeftypei", "cgdeftype":
 		return nil, []string{"t:" + op.N}
-	case "mtype":
+	case "mtype", "mctype":
 		return []string{"t:" + op.N}, nil
 	case "eget", "ceget":
 		return []string{"v:xe"}, nil
